@@ -155,22 +155,22 @@ TAIL = bytes((i * 13 + 5) % 256 for i in range(1200))
 
 @ob('O12.3b', 'Iterated S2K content: stream is whole copies of salt||passphrase plus the leading remainder, at least one full copy',
     'coded count in {0, 1, 16, 17} (1024..2176 octets); passphrase = 2 symbolic octets + concrete tail of symbolic-choice length '
-    'from {0, 1, 6, 22, 54} (units of 10, 11, 16, 32, 64 octets: remainders 4, 1, 0) and, thorough only, 1100 (passphrase longer than the count); '
+    'from {0, 1, 6, 7, 13, 22, 54} (units of 10, 11, 16, 17, 23, 32, 64 octets: remainders inside the salt, inside the passphrase, and zero) and, thorough only, 1100 (passphrase longer than the count); '
     'symbolic salt; MD5/AES-256 (two contexts) and SHA-1/AES-128',
     cond_timeout={'q': 300, 't': 1500},
-    partitions={'q': [['ci == %d' % i, 'cfg == %d' % c, 'li < 5'] for i in range(4) for c in (0, 8)],
-                't': [['ci == %d' % i, 'cfg == %d' % c, 'li < 5'] for i in range(4) for c in (0, 8)] + [['ci == 0', 'cfg == 8', 'li == 5']]})
+    partitions={'q': [['ci == %d' % i, 'cfg == %d' % c, 'li < 7'] for i in range(4) for c in (0, 8)],
+                't': [['ci == %d' % i, 'cfg == %d' % c, 'li < 7'] for i in range(4) for c in (0, 8)] + [['ci == 0', 'cfg == 8', 'li == 7']]})
 def iterated(ci: int, cfg: int, li: int, salt: bytes, p0: int, p1: int) -> bool:
     """
     pre: 0 <= ci < 4
     pre: cfg in (0, 8)
-    pre: 0 <= li < 6
+    pre: 0 <= li < 8
     pre: len(salt) == 8
     pre: 0 <= p0 < 256 and 0 <= p1 < 256
     post: _
     """
     coded = (0, 1, 16, 17)[ci]
-    tl = (0, 1, 6, 22, 54, 1100)[li]
+    tl = (0, 1, 6, 7, 13, 22, 54, 1100)[li]
     pw = bytes([p0, p1]) + TAIL[:tl]
     h, c = CONFIGS[cfg]
     return run_case(3, h, c, salt, pw, coded)
@@ -306,6 +306,6 @@ def o12_1(tier):
 
 SANITY = ['simple_salted(%d, %d, b"12345678", b"ab")' % (s, c) for s in (0, 1) for c in range(len(CONFIGS))] + [
     'simple_salted(0, 1, b"12345678", b"")', 'simple_salted(1, 0, b"\\x00\\xff\\x80\\x7f\\x01\\x02\\x03\\x04", b"\\xc3\\xa9\\x00")',
-    'iterated(0, 0, 0, b"12345678", 1, 2)', 'iterated(1, 8, 2, b"12345678", 1, 2)', 'iterated(3, 0, 3, b"abcdefgh", 0, 255)',
-    'iterated(2, 8, 4, b"abcdefgh", 0, 255)', 'iterated(0, 8, 5, b"abcdefgh", 0, 255)', 'iterated(0, 0, 1, b"abcdefgh", 7, 7)',
+    'iterated(0, 0, 0, b"12345678", 1, 2)', 'iterated(1, 8, 2, b"12345678", 1, 2)', 'iterated(3, 0, 5, b"abcdefgh", 0, 255)',
+    'iterated(2, 8, 4, b"abcdefgh", 0, 255)', 'iterated(0, 8, 7, b"abcdefgh", 0, 255)', 'iterated(0, 0, 3, b"abcdefgh", 1, 2)', 'iterated(1, 8, 4, b"abcdefgh", 1, 2)', 'iterated(0, 0, 1, b"abcdefgh", 7, 7)',
     'text_passphrase(0, b"12345678", "a ")', 'text_passphrase(1, b"12345678", "\\n")', 'text_passphrase(1, b"12345678", "\\u00e9\\t")', 'replay_arith(0, 0, False)', 'replay_arith(5, 0, False)', 'replay_arith(1100, 0, True)', 'replay_arith(20, 17, True)']
